@@ -16,6 +16,7 @@ import (
 	"github.com/PowerDNS/lightningstream/syncer/receiver"
 	"github.com/PowerDNS/lightningstream/syncer/sweeper"
 	"github.com/PowerDNS/lightningstream/utils"
+	"github.com/PowerDNS/lightningstream/utils/verifhook"
 	"github.com/PowerDNS/lmdb-go/lmdb"
 	"github.com/sirupsen/logrus"
 )
@@ -52,6 +53,7 @@ func (s *Syncer) Sync(ctx context.Context) error {
 // syncLoop enters a two-way sync-loop and only returns when an error that cannot be
 // handled occurs.
 func (s *Syncer) syncLoop(ctx context.Context, env *lmdb.Env, r *receiver.Receiver) error {
+	verifhook.Start(ctx, "syncloop", "")
 	info, err := env.Info()
 	if err != nil {
 		return err
@@ -90,10 +92,12 @@ func (s *Syncer) syncLoop(ctx context.Context, env *lmdb.Env, r *receiver.Receiv
 		}
 		s.l.WithError(err).Info("Waiting for initial receiver listing")
 		time.Sleep(time.Second)
+		verifhook.Yield(ctx, "sync:initial-listing-retry")
 	}
 
 	// Start tracker: Initial storage snapshots listed
 	s.startTracker.SetPassedInitialListing()
+	verifhook.Yield(ctx, "sync:after-initial-listing")
 
 	hasSnapshots := r.HasSnapshots()
 	ownInstanceID := s.instanceID()
@@ -128,6 +132,7 @@ func (s *Syncer) syncLoop(ctx context.Context, env *lmdb.Env, r *receiver.Receiv
 		// At least it allows us to save newer entries that were added
 		// while the syncer was not running. It will not save updated entries.
 		s.l.Info("Syncing main to shadow, in case data was changed before start")
+		verifhook.Yield(ctx, "sync:before-startup-shadow")
 		err := env.Update(func(txn *lmdb.Txn) error {
 			// We would like to just use timestamp 0 here, but that
 			// would break older clients that explicitly guard against
@@ -140,6 +145,7 @@ func (s *Syncer) syncLoop(ctx context.Context, env *lmdb.Env, r *receiver.Receiv
 		if err != nil {
 			return err
 		}
+		verifhook.Yield(ctx, "sync:after-startup-shadow")
 	}
 
 	// Store a snapshot of current data if there are no snapshots yet.
@@ -191,6 +197,7 @@ func (s *Syncer) syncLoop(ctx context.Context, env *lmdb.Env, r *receiver.Receiv
 		// snapshot when local changes are detected.
 		// TODO: LSE: Maybe also add MaxConsecutiveUpdateLoads, or base this on time?
 		nLoads := 0
+		verifhook.Yield(ctx, "sync:loop-top")
 	loadReadySnapshotsLoop:
 		for {
 			instance, update := r.Next()
@@ -226,12 +233,14 @@ func (s *Syncer) syncLoop(ctx context.Context, env *lmdb.Env, r *receiver.Receiv
 				}
 			}
 
+			verifhook.Yield(ctx, "sync:before-load")
 			actualTxnID, localChanged, err := s.LoadOnce(
 				ctx, env, instance, update, lastSyncedTxnID)
 			update.Close() // releases the DecompressedSnapshotToken
 			if err != nil {
 				return err
 			}
+			verifhook.Yield(ctx, "sync:after-load")
 
 			// Publish a successful load
 			s.events.UpdateLoaded.Publish(events.UpdateInfo{
@@ -283,6 +292,7 @@ func (s *Syncer) syncLoop(ctx context.Context, env *lmdb.Env, r *receiver.Receiv
 		}
 
 		// Check for change in local LMDB
+		verifhook.Yield(ctx, "sync:before-change-check")
 		info, err := env.Info()
 		if err != nil {
 			return err
@@ -312,6 +322,7 @@ func (s *Syncer) syncLoop(ctx context.Context, env *lmdb.Env, r *receiver.Receiv
 
 				// Store snapshot
 				if hasDataAtStart || lastSyncedTxnID > 0 {
+					verifhook.Yield(ctx, "sync:before-send")
 					actualTxnID, err := s.SendOnce(ctx, env)
 					if err != nil {
 						return err
@@ -497,6 +508,7 @@ func (s *Syncer) LoadOnce(ctx context.Context, env *lmdb.Env, instance string, u
 				return err
 			}
 			ld.Debug("Merge successful")
+			verifhook.InWriteTxn(ctx, "loadonce:dbi-merged")
 
 			if utils.IsCanceled(ctx) {
 				return context.Canceled
@@ -521,6 +533,7 @@ func (s *Syncer) LoadOnce(ctx context.Context, env *lmdb.Env, instance string, u
 		return 0, false, err
 	}
 	tLoaded := time.Now()
+	verifhook.Yield(ctx, "loadonce:after-txn")
 
 	// If no actual changes were made, LMDB will not record the transaction
 	// and reuse the ID the next time, so we need to adjust the txnID we return.
